@@ -1632,10 +1632,12 @@ class QueryBuilder(Selectable, Term):  # type:ignore[misc]
             table=self._insert_table.get_sql(into_ctx),  # type:ignore[union-attr]
         )
 
-    def _from_sql(self, ctx: SqlContext) -> str:
+    def _from_sql(self, ctx: SqlContext, clauses: Sequence[Selectable] | None = None) -> str:
         from_ctx = ctx.copy(subquery=True, with_alias=True)
+        if clauses is None:
+            clauses = self._from
         return " FROM {selectable}".format(
-            selectable=",".join(clause.get_sql(from_ctx) for clause in self._from)
+            selectable=",".join(clause.get_sql(from_ctx) for clause in clauses)
         )
 
     def _force_index_sql(self, ctx: SqlContext) -> str:
